@@ -65,6 +65,8 @@ type ScriptedLN struct {
 	script    []string // answers for SendPayment / PayPartialAmount / OutgoingPaymentStatus, in order
 	failNext  map[string]int // method -> number of upcoming calls that return a transport error
 	feePct    bool // true: ceil(1%) like LND/CLN; false: 0 like FakeBackend
+	// DefaultAnswer is used for payment / status calls when the script is empty ("" = transport error)
+	DefaultAnswer string
 	Calls     []LnCall
 	subs      map[string][]chan lightning.Invoice
 	// scheduling gate shared with the storage proxy (nil = free running)
@@ -168,6 +170,9 @@ func (l *ScriptedLN) InvoiceStatus(hash string) (lightning.Invoice, error) {
 
 func (l *ScriptedLN) nextAnswer() string {
 	if len(l.script) == 0 {
+		if l.DefaultAnswer != "" {
+			return l.DefaultAnswer
+		}
 		return "err"
 	}
 	a := l.script[0]
